@@ -173,6 +173,10 @@ class Inv:
         if not bad:
             for r in net.allRoads:
                 self.road_chain(r)
+            # adjacency is symmetric (cheap: every lane in every run)
+            for l in net.lanes:
+                for a_ in l.adjacentLanes:
+                    self.chk("adjacent-lanes-reciprocal", self.has(a_.adjacentLanes, l), lane=l.uid, other=a_.uid)
 
     def inside(self, clause, child, parent, tol=None):
         tol = self.tol if tol is None else tol
@@ -470,3 +474,43 @@ class Inv:
         self.chk("nominal-directions-tangent-to-centerline", bool(nd) and all(off(y) <= 1e-6 for y in nd),
                  lane=lane.uid, point=[_f(p[0]), _f(p[1])], reported=[_f(y) for y in nd],
                  centerline_headings=[_f(h) for h in hs[:4]])
+        # the same at points 2 cm inside the lane's own borders (closer to the neighbouring lane than
+        # the tolerance, but strictly inside this lane only): the orientation of the aggregate regions
+        # must still be this lane's direction, not the neighbour's
+        tx, ty = x1 - x0, y1 - y0
+        ln = math.hypot(tx, ty)
+        nx, ny = -ty / ln, tx / ln
+        for sign in (1.0, -1.0):
+            ray = sg.LineString([p, (p[0] + sign * nx * 60, p[1] + sign * ny * 60)])
+            inside = ray.intersection(lane.polygons)
+            d = 0.0
+            for g in getattr(inside, "geoms", [inside]):
+                if g.geom_type == "LineString" and g.distance(q) < 1e-9:
+                    d = g.length
+            if d < 0.2:
+                self.st["unjudged:direction-border-point"] += 1
+                continue
+            b = (p[0] + sign * nx * (d - 0.02), p[1] + sign * ny * (d - 0.02))
+            bq = sg.Point(b)
+            others = [x for x in (net.elements[net._uidForIndex[j]] for j in
+                                  net._rtree.query(bq.buffer(1e-9), predicate="intersects"))
+                      if isinstance(x, rd.Lane) and x is not lane]
+            if others or not lane.polygons.contains(bq):
+                self.st["unjudged:direction-border-point"] += 1
+                continue
+            for name in ("laneRegion", "roadRegion", "drivableRegion"):
+                reg = getattr(net, name, None)
+                field = getattr(reg, "orientation", None)
+                if field is None:
+                    continue
+                try:
+                    y = field[rd._toVector(b)].yaw
+                except Exception as ex:  # noqa: BLE001 - a point of the region must have a direction
+                    self.chk("region-orientation-near-lane-border", False, lane=lane.uid, region=name,
+                             point=[_f(b[0]), _f(b[1])], error=type(ex).__name__)
+                    continue
+                own = lane.orientation[rd._toVector(b)].yaw  # the lane's own direction at that point
+                d_own = abs(math.remainder(float(y) - float(own), 2 * math.pi))
+                self.chk("region-orientation-near-lane-border", d_own <= 1e-6, lane=lane.uid, region=name,
+                         point=[_f(b[0]), _f(b[1])], reported_heading=_f(y), lane_heading=_f(own),
+                         angle_off=_f(d_own), distance_to_border=0.02)
